@@ -295,8 +295,20 @@ def gen_tree(r):
     kc = "map" if r.coin() else "list"
     kinds = ("value", "key") if kc == "map" else ("value", "index")
     via_spec = r.coin(30)
-    t = G.tree(r, kinds, "typed", depth=r.between(1, 6), null_p=15, meaningful=via_spec)
     mk = G.map_doc if kc == "map" else G.list_doc
+    if r.pct() < 12:
+        # value-kind operands some of which take a data-path argument (resolved against the
+        # document when the tree is judged through a rule), at any position of the tree
+        from . import c17
+        probes = [mk(r, 3) for _ in range(2)]
+
+        def node(d):
+            if d <= 0 or r.pct() < 35:
+                return c17.gen_leaf_with_paths(r, probes[0]) if r.coin(55) else G.leaf(r, ("value",), "typed")
+            return Op(r.choice(OPS), node(d - 1), node(d - 1))
+
+        return node(r.between(1, 3)), probes, False
+    t = G.tree(r, kinds, "typed", depth=r.between(1, 6), null_p=15, meaningful=via_spec)
     return t, [mk(r, 2) for _ in range(2)], via_spec
 
 
@@ -313,7 +325,10 @@ def body_tree(case):
         out.exc("build-tree", e)
         return out
     mixed = False
+    with_paths = model.has_path_args(t)
     for pd in probes:
+        if with_paths:
+            break  # such operands are only meaningful with a source document: judged through a rule below
         exp = model.ref_filter(t, pd)
         try:
             got = o.filter(pd).result
@@ -344,8 +359,13 @@ def body_tree(case):
     # their concrete paths while they are filtered
     from ..terms import cond_kinds
     if cond_kinds(t) <= {"value"}:
-        for pd in probes:
-            exp = model.ref_filter(t, pd)
+        # (path arguments carry modifiers that are defined on the first probe only, as in C17)
+        for pd in (probes[:1] if with_paths else probes):
+            try:
+                exp = model.ref_filter(t, pd, model.make_resolver(pd) if with_paths else None)
+            except Exception:
+                continue
+            mixed = mixed or (any(exp) and not all(exp))
             try:
                 part = ns.d.MapValue() if isinstance(pd, dict) else ns.d.ListValue()
                 rt = ns.r.Rule(ns.d.DataPath(part), o).test(pd)
@@ -359,7 +379,7 @@ def body_tree(case):
                 out.add("boolean-algebra", "boolean-algebra|tree|through-rule",
                         f"{show(t,300)} on {show(pd,150)}: failing items {got_fail} expected {exp_fail}")
                 return out
-        out.label("judged-through-rule")
+        out.label("judged-through-rule", *(["path-valued-operands"] if with_paths else []))
     d = depth(t)
     out.label(f"depth:{d}")
     nulls = sum(1 for n in walk_cond(t) if isinstance(n, Null))
